@@ -287,18 +287,20 @@ def r12_2(ctx, repo):
             for m in ('compute_log_likelihood', 'compute_sensitivities'):
                 fn = repo.method(cls, m)
                 construct = '%s.%s' % (cls, m)
-                rs = [c for c in ast.walk(fn) if isinstance(c, ast.Call)
-                      and isinstance(c.func, ast.Attribute)
-                      and c.func.attr == 'reshape'
-                      and U(c.func.value) == 'simulated_obs']
-                for c in rs:
-                    args = [U(a) for a in c.args]
-                    per = [s for s in ast.walk(fn) if isinstance(
-                        s, ast.Assign) and U(s.targets[0]) ==
-                        'n_per_kernel']
-                    ok = args[:2] == ['self._n_kernels', 'n_per_kernel'] \
-                        and per and U(per[0].value).replace(' ', '') == \
-                        'n_sim//self._n_kernels'
+                try:
+                    _, lf_, _ = _lift_score(repo, cls, m)
+                except Unsupported as e:
+                    ctx.error(rule, 'cannot lift %s: %s' % (construct, e))
+                    continue
+                rs = [(c, sh) for c, sh in lf_.reshapes
+                      if 'simulated_obs' in U(c.func.value)]
+                if not rs:
+                    ctx.error(rule, '%s: reshape of the simulations into '
+                              'kernel blocks not found' % construct)
+                for c, sh in rs:
+                    ok = sh is not None and len(sh) >= 2 and sp.simplify(
+                        sh[0] - K) == 0 and sp.simplify(
+                        sh[1] * K - N) == 0
                     if ok:
                         ctx.ok(rule, repo.loc(c, cls, m), construct,
                                'simulations are split into n_kernels '
